@@ -82,6 +82,10 @@ func Munmap(b []byte) error {
 		x.unmappedLen = map[uintptr]int{}
 	}
 	x.unmappedLen[uintptr(unsafe.Pointer(&b[0]))] = len(b)
+	if x.unmappedStep == nil {
+		x.unmappedStep = map[uintptr]int{}
+	}
+	x.unmappedStep[uintptr(unsafe.Pointer(&b[0]))] = x.nsteps
 	x.cleanup = append(x.cleanup, func() { unix.Munmap(b) })
 	return nil
 }
